@@ -91,7 +91,7 @@ pub fn run(op: &str, var: &[&str], ints: &[i64], sc: &[V]) -> Out {
     });
     let f = f.unwrap_or('?');
     let st = var.get(1).copied().unwrap_or("o");
-    // `acc` (position >= 3, `umax` / `fuse`): also report whether the crate's checked constructors accept the operands and the result
+    // `acc` (position >= 3, `umax` / `fuse` / `deduce*` / `inverse` / `abduce*` / `merge`): also report whether the crate's checked constructors accept the operands and the result
     let acc = var.iter().skip(2).any(|t| *t == "acc");
     let t3 = var.iter().skip(2).copied().find(|t| *t != "acc").unwrap_or("");
     let alias = var.iter().skip(2).any(|t| *t == "alias");
@@ -117,12 +117,12 @@ pub fn run(op: &str, var: &[&str], ints: &[i64], sc: &[V]) -> Out {
         "meq" if ints.len() == 2 => op_meq2(f, ints, sc),
         "meq" => op_meq(f, ints, sc),
         "fuse_fold" => op_fuse_fold(f, var, ints, sc),
-        "mbr" | "deduce" | "deduce_with" | "inverse" => op_cond(op, f, st, shared, ints, sc),
-        "abduce" | "abduce_with" => op_abduce(op, f, st, t3, ints, sc),
-        "deduce2" => op_deduce2(f, st, shared, ints, sc),
+        "mbr" | "deduce" | "deduce_with" | "inverse" => op_cond(op, f, st, shared, acc, ints, sc),
+        "abduce" | "abduce_with" => op_abduce(op, f, st, t3, acc, ints, sc),
+        "deduce2" => op_deduce2(f, st, shared, acc, ints, sc),
         "prod2" => op_prod2(f, st, ints, sc),
         "prod3" => op_prod3(f, st, ints, sc),
-        "merge" => op_merge(f, st, ints, sc),
+        "merge" => op_merge(f, st, acc, ints, sc),
         _ => op_bi(op, var, ints, sc),
     }
 }
